@@ -9,7 +9,14 @@ RULE = ("random collections of 0-8 instrument definitions over 1-4 exchanges (al
         "subset of exchanges, 10 % with an unknown or duplicate exchange). 12 % of the cases violate the well-formedness hypotheses on purpose (model vs code only; "
         "the spec stays silent on the clauses that need them); in every 6th case a copy moved to ANOTHER exchange keeps its instrument name_internal (names unique per "
         "exchange but not over the collection: the spec demands `res` / `rt` there and is silent on the engine clause only). Thorough: additionally 32 collections of 0-5 definitions with EVERY insertion order (1,1,2,6,24,120 "
-        "orders per size). Distinct by SHA-1 of the op lines; non-trivial when the implementation's observation blocks differ at least once")
+        "orders per size). Input-domain families, separately seeded and appended (the cases above keep their inputs; exchange labels are positions in the WHOLE "
+        "ExchangeId enum, 42 variants in declaration order): `w` (N/8 cases: 0-12 definitions over 1-8 exchanges drawn from the whole enum, every fourth case with the first and "
+        "the last variant; instrument names in no particular order out of 1000; 2-6 internal asset names whose exchange names are an arbitrary per-exchange function, so that two "
+        "internal names share one exchange name and one internal name has unrelated exchange names on two exchanges; decimals from {0, 1, 2, 5, 9, 10, 100, 1e12-1, 1e12}, "
+        "expiries from {0, 1, 2, 999, 1000, one day, 1e12} ms; near-copies that differ in ONE late member of the derived order; perm = reverse order / every element twice / "
+        "one element four times; exec = all exchanges of the collection, subsets, an unmentioned exchange of the enum, a duplicate) and `l` (N/60 cases: 50-130 definitions over 2-8 "
+        "exchanges and 8-40 asset names, every tenth one - the fifth first, so also in the quick tier - 260-320 definitions: positions past u8; every fourth with names shared "
+        "between exchanges). Distinct by SHA-1 of the op lines; non-trivial when the implementation's observation blocks differ at least once")
 ASSUMPTIONS = [
     "WFAssets (needed by references_resolve, lookups_inverse_asset, tables_aligned_assets, resolve_by_name, engine_tables_resolve): within one exchange an asset's "
     "name_internal determines its name_exchange. At the excluded points the real code resolves an asset reference to the first asset of that exchange with that "
@@ -21,8 +28,13 @@ ASSUMPTIONS = [
     "WFNames (needed by lookups_inverse_instrument, tables_aligned_instruments, resolve_by_name, engine_tables_resolve): instrument name_internal is unique over the "
     "collection (documented in instrument/name.rs as unique across all exchanges). At the excluded points find_instrument_index returns the first match and the "
     "engine's instrument IndexMap (keyed by name_internal) collapses entries / instrument_index panics past the end; model and code agree there",
-    "ExchangeId, SmolStr names, Decimal and DateTime fields are naturals ordered like the Rust values (the harness maps them order-preservingly: ascending ExchangeIds, "
-    "fixed-width names, integer decimals, millisecond expiries); the derived lexicographic Ord of the Rust structs is modelled by an injective sort key",
+    "ExchangeId, SmolStr names, Decimal and DateTime fields are naturals ordered like the Rust values (the harness maps them order-preservingly: exchange label k = the k-th of the "
+    "42 ExchangeId variants in declaration order, fixed-width names 0-999, non-negative integer decimals and millisecond expiries up to 1e15); the derived lexicographic Ord of the Rust "
+    "structs is modelled by an injective sort key. An op outside these ranges (exchange label >= 42, name number > 999, decimal / expiry > 1e15, enum position out of range, a token "
+    "that is not a plain natural, a perm index past the definitions) is answered `bad-op` by harness, model and spec alike (corpus D4_malformed_ops). NOT representable in this "
+    "coding, hence not generated: fractional or negative Decimals (real tick sizes are fractional; only their order and equality enter the builder), two Decimals equal in value "
+    "but of different scale (1.0 / 1.00: rust_decimal's Eq / Ord / Hash identify them, so the builder's dedup merges such definitions), names equal up to case (sub-check C11N "
+    "runs the real name constructors on raw strings)",
     "slice::sort + Vec::dedup, IndexMap::from_iter / get_index and Iterator::find_map are modelled by their documented list semantics (List.mergeSort + adjacent dedup, "
     "insert-or-replace-in-place, first match)",
     "ExecutionBuilder is reduced to its ExchangeId -> ExchangeIndex table; transmitters are opaque (only Some/None per slot is observed); MockExchange set-up is exercised for spot-only exchanges, a stub live client otherwise",
@@ -57,7 +69,7 @@ LEVEL_TEXT = ("Proof. lean/BarterModel/Props/C11.lean proves for EVERY finite li
               "definition (tables_aligned_instruments, tables_aligned_assets, engine_tables_resolve). Unbounded in collection size; the suite's builder tests fix 1-3 instruments "
               "in one order. All full strength, no _partial theorem.")
 LEVEL_NOTE = ("Trusted: Lean kernel; axioms propext/Classical.choice/Quot.sound only; the hand-written model (sort keys for the derived Ord, list semantics of sort/dedup/IndexMap) "
-              "tied to the code by sampled correspondence (300 quick / 10k random + every insertion order of 32 collections of <= 5 definitions thorough) through the real "
+              "tied to the code by sampled correspondence (300 quick / 10k random + every insertion order of 32 collections of <= 5 definitions thorough, plus the input-domain families: whole ExchangeId enum, wide values, collections of up to 320 definitions) through the real "
               "IndexedInstruments, EngineState builder and ExecutionBuilder; harness and driver. Hypotheses WFAssets (asset internal name determines the asset within an exchange) "
               "and WFNames (instrument internal names unique) are needed only for the clauses listed; at the excluded points the code mis-resolves / collapses IndexMap entries "
               "(documented precondition, model and code agree there). Transmitter identity is not observed (only presence per slot). "
